@@ -107,10 +107,10 @@ def run(ctx):
     res = [t for _, t in docs.rule_resources()]
     srcs = docs.repo_sources()
     if ctx.quick():
-        pool = docs.sample(ctx.rng, res, 150) + docs.sample(ctx.rng, srcs, 250)
+        pool = docs.sample(ctx.rng, res, 150) + docs.sample(ctx.rng, srcs, 250) + docs.sample(ctx.rng, docs.families(), 200)
         singles = docs.sample(ctx.rng, fixable, 3)
     else:
-        pool = res + srcs
+        pool = res + srcs + docs.families()
         singles = fixable
     pool = list(dict.fromkeys(pool))
     configs = [("default", [])] + [("only-" + r, E.only_args([r])) for r in singles]
